@@ -54,6 +54,45 @@ func (c *Ctx) FactsAt(b *ssa.BasicBlock) []Fact {
 		cx, v := normFact(c.E(iff.Cond), val)
 		out = append(out, Fact{Cond: cx, Val: v, If: iff})
 	}
+	// a value-level short-circuit (switch case `a && b`, `x := a || b`): the phi is true only through its one edge that
+	// is not the constant false — then that edge's value is true and the edge was taken (dually for ||)
+	for i := 0; i < len(out) && i < 64; i++ {
+		ph, ok := out[i].Cond.V.(*ssa.Phi)
+		if !ok || out[i].Cond.Op != "phi" || len(ph.Edges) < 2 || len(ph.Edges) != len(ph.Block().Preds) {
+			continue
+		}
+		if b, isB := ph.Type().Underlying().(*types.Basic); !isB || b.Kind() != types.Bool {
+			continue
+		}
+		idx := -1
+		n := 0
+		for j, e := range ph.Edges {
+			if k, isC := e.(*ssa.Const); isC && k.Value != nil && k.Value.ExactString() == map[bool]string{true: "false", false: "true"}[out[i].Val] {
+				continue
+			}
+			idx = j
+			n++
+		}
+		if n != 1 {
+			continue
+		}
+		pred := ph.Block().Preds[idx]
+		cx, v := normFact(c.E(ph.Edges[idx]), out[i].Val)
+		out = append(out, Fact{Cond: cx, Val: v, If: out[i].If})
+		out = append(out, edgeFact(c, pred, ph.Block())...)
+		for d := pred; d != nil; d = d.Idom() {
+			if len(d.Preds) != 1 {
+				continue
+			}
+			pp := d.Preds[0]
+			iff, ok := pp.Instrs[len(pp.Instrs)-1].(*ssa.If)
+			if !ok || pp.Succs[0] == pp.Succs[1] {
+				continue
+			}
+			cx2, v2 := normFact(c.E(iff.Cond), pp.Succs[0] == d)
+			out = append(out, Fact{Cond: cx2, Val: v2, If: iff})
+		}
+	}
 	// a test of a helper's boolean result carries the helper's own tests
 	if c.factDepth == 0 {
 		c.factDepth++
